@@ -213,6 +213,13 @@ def s_scenarios():
         ("delete-parent|select-child", {"op": "delete", "m": "a"}, {"op": "select", "m": "a/b"}),
     ]:
         out.append(dict(base, name=name, prelude=sel, concurrent={"A": [dict(a, s="A")], "B": [dict(b, s="B")]}))
+    # commands that do not touch messages, sent while another session's FETCH is in progress on the mailbox (slow reader)
+    fa = {"s": "A", "op": "fetch", "set": "1:*", "items": "(UID BODY.PEEK[HEADER.FIELDS (SUBJECT)])"}
+    for name, bs in [("fetch in progress|subscribe,status", [{"op": "subscribe", "m": "INBOX"}, {"op": "status", "m": "INBOX"}]),
+                     ("fetch in progress|unsubscribe,noop", [{"op": "unsubscribe", "m": "INBOX"}, {"op": "noop"}]),
+                     ("fetch in progress|examine,close", [{"op": "examine", "m": "INBOX"}, {"op": "close"}]),
+                     ("fetch in progress|create,delete child", [{"op": "create", "m": "INBOX/k"}, {"op": "delete", "m": "INBOX/k"}])]:
+        out.append(dict(base, name=name, prelude=sel, parked=["A"], concurrent={"A": [fa], "B": [dict(b, s="B") for b in bs]}))
     return out
 
 
